@@ -135,7 +135,7 @@ pub fn run<const N: usize>(ctx: &mut Ctx, with_sha: bool, srs_k: u32, seed: u64,
             return;
         }
     }
-    let mut expect_reject = |ctx: &mut Ctx, what: &str, insts: &[Vec<F>; N], bytes: &[u8], detail: serde_json::Value| {
+    let expect_reject = |ctx: &mut Ctx, what: &str, insts: &[Vec<F>; N], bytes: &[u8], detail: serde_json::Value| {
         ctx.count(&format!("agg:{what}"));
         match verdict(&agg, &srs, insts, bytes) {
             Ok(Err(_)) => {}
